@@ -111,7 +111,7 @@ class Deduping(DNAGenerator):
     attempts = 0
     while attempts < self.max_proposal_attempts:
       dna = self.generator.propose()
-      hash_key = self._hash_fn(dna)
+      hash_key = self._dedup_key(dna)
       history = self._cache.get(hash_key, [])
       dna.set_metadata('dedup_key', hash_key)
       if len(history) < self.max_duplicates:
@@ -144,10 +144,28 @@ class Deduping(DNAGenerator):
     if reward is not None or not self.needs_feedback:
       self._add_dna_to_cache(dna, reward)
 
+  def _dedup_key(self, dna: DNA) -> Any:
+    """Returns the key under which a DNA is de-duplicated.
+
+    The key is computed from the decisions alone (metadata such as proposal
+    ids differs between equal DNAs), and always in the current process: the
+    default hash is not stable across processes, so a key found in the metadata
+    of a recovered DNA cannot be trusted.
+
+    Args:
+      dna: The DNA to compute the key for.
+
+    Returns:
+      A hashable key.
+    """
+    bare = DNA(dna.value, [c for c in dna.children])
+    if dna.spec is not None:
+      bare.use_spec(dna.spec)
+    return self._hash_fn(bare)
+
   def _add_dna_to_cache(
       self, dna: DNA, reward: Union[None, float, Tuple[float]]) -> None:
-    hash_key = dna.metadata.get('dedup_key', None)
-    assert hash_key is not None, dna
+    hash_key = self._dedup_key(dna)
     if hash_key not in self._cache:
       self._cache[hash_key] = []
     self._cache[hash_key].append(reward)
